@@ -178,4 +178,90 @@ theorem peel_complete (rank : α → Nat) (fuel : Nat) (rem : List α)
   have := (peel_perm rank fuel rem hr hf).mem_iff.2 ha
   simpa [List.mem_flatten] using this
 
+/-! ### The schedule does not depend on the order or the names of the nodes -/
+
+theorem leaves_perm {rem rem' : List α} (h : rem.Perm rem') :
+    (leaves r rem).Perm (leaves r rem') := by
+  unfold leaves
+  have hq : (fun a => rem.all (fun b => !r a b)) = (fun a => rem'.all (fun b => !r a b)) := by
+    funext a
+    rw [Bool.eq_iff_iff, List.all_eq_true, List.all_eq_true]
+    exact ⟨fun hh b hb => hh b (h.mem_iff.2 hb), fun hh b hb => hh b (h.mem_iff.1 hb)⟩
+  rw [hq]
+  exact h.filter _
+
+/-- Peeling a permutation of the nodes gives, round by round, a permutation of the same nodes. -/
+theorem peel_perm_congr (fuel : Nat) {rem rem' : List α} (h : rem.Perm rem') :
+    List.Forall₂ List.Perm (peel r fuel rem) (peel r fuel rem') := by
+  induction fuel generalizing rem rem' with
+  | zero => simp [peel]
+  | succ fuel ih =>
+    have hl := leaves_perm (r := r) h
+    simp only [peel]
+    by_cases he : leaves r rem = []
+    · have he' : leaves r rem' = [] := by
+        have := hl.length_eq; rw [he] at this
+        exact List.eq_nil_of_length_eq_zero this.symm
+      simp [he, he']
+    · have he' : leaves r rem' ≠ [] := by
+        intro hc; rw [hc] at hl; exact he hl.eq_nil
+      rw [if_neg (by simpa [List.isEmpty_iff] using he),
+        if_neg (by simpa [List.isEmpty_iff] using he')]
+      refine List.Forall₂.cons hl (ih ?_)
+      have hq : (fun a => !(leaves r rem).contains a) = (fun a => !(leaves r rem').contains a) := by
+        funext a
+        congr 1
+        rw [Bool.eq_iff_iff]
+        simp only [List.contains_eq_mem, decide_eq_true_eq]
+        exact hl.mem_iff
+      rw [hq]
+      exact h.filter _
+
+variable {β : Type} [BEq β] [LawfulBEq β]
+
+/-- Renaming the nodes injectively (with the edges renamed accordingly) renames the schedule. -/
+theorem peel_map (f : α → β) (r' : β → β → Bool) (fuel : Nat) (rem : List α)
+    (hinj : ∀ a ∈ rem, ∀ b ∈ rem, f a = f b → a = b)
+    (hr : ∀ a ∈ rem, ∀ b ∈ rem, r' (f a) (f b) = r a b) :
+    peel r' fuel (rem.map f) = (peel r fuel rem).map (List.map f) := by
+  induction fuel generalizing rem with
+  | zero => simp [peel]
+  | succ fuel ih =>
+    have hlv : leaves r' (rem.map f) = (leaves r rem).map f := by
+      unfold leaves
+      rw [List.filter_map]
+      congr 1
+      apply List.filter_congr
+      intro a ha
+      simp only [Function.comp, List.all_map]
+      rw [Bool.eq_iff_iff, List.all_eq_true, List.all_eq_true]
+      constructor
+      · intro hh b hb; rw [← hr a ha b hb]; exact hh b hb
+      · intro hh b hb; simp only [Function.comp]; rw [hr a ha b hb]; exact hh b hb
+    have hrest : (rem.map f).filter (fun x => !((leaves r rem).map f).contains x)
+        = (rem.filter (fun a => !(leaves r rem).contains a)).map f := by
+      rw [List.filter_map]
+      congr 1
+      apply List.filter_congr
+      intro a ha
+      simp only [Function.comp]
+      congr 1
+      rw [Bool.eq_iff_iff]
+      simp only [List.contains_eq_mem, decide_eq_true_eq, List.mem_map]
+      constructor
+      · rintro ⟨b, hb, hfb⟩
+        have := hinj b (mem_leaves.1 hb).1 a ha hfb
+        rw [← this]; exact hb
+      · intro ha'; exact ⟨a, ha', rfl⟩
+    simp only [peel]
+    rw [hlv]
+    by_cases he : leaves r rem = []
+    · simp [he]
+    · rw [if_neg (by simpa [List.isEmpty_iff] using he), if_neg (by simpa [List.isEmpty_iff] using he)]
+      rw [List.map_cons, hrest]
+      congr 1
+      apply ih
+      · intro a ha b hb; exact hinj a (mem_rest.1 ha).1 b (mem_rest.1 hb).1
+      · intro a ha b hb; exact hr a (mem_rest.1 ha).1 b (mem_rest.1 hb).1
+
 end GV.C08
